@@ -465,6 +465,7 @@ func (a *analysis) checkRecovery(x *verifkit.Exec) {
 	var opens []verifkit.Event
 	fatalInjected, fatalInjectedSeq := "", -1 // a cause the property lists as fatal entered the engine
 	userStopSeq, userStopOK, shutdownSeq := -1, false, -1
+	transientSeq := -1 // first transient failure (plugin open / run / read error) of the history
 	lastUserStart := -1
 	transientInRun := 0
 	for _, e := range a.evs {
@@ -482,6 +483,9 @@ func (a *analysis) checkRecovery(x *verifkit.Exec) {
 			transientInRun = 0
 		case e.Kind == "openfail" || e.Kind == "runerr" || e.Kind == "readerr":
 			transientInRun++ // the run is already failing for a transient reason: that first cause decides its fate
+			if transientSeq < 0 && fatalInjected == "" && !strings.HasPrefix(e.Arg, "ctx") && e.Arg != "abort" {
+				transientSeq = e.Seq
+			}
 		case e.Comp == "dlq" && e.Kind == "nack":
 			if transientInRun == 0 && fatalInjected == "" {
 				fatalInjected, fatalInjectedSeq = "a DLQ write failed (the DLQ rejected the record)", e.Seq
@@ -553,6 +557,24 @@ func (a *analysis) checkRecovery(x *verifkit.Exec) {
 	}
 	if int64(attempts) > maxRetries && sts[len(sts)-1].t-sts[0].t < rec.MaxRetriesWindow {
 		a.bad("C10/too-many-recovery-attempts", "%d automatic restarts within the retry window although MaxRetries is %d", attempts, maxRetries)
+	}
+	// R7: a transient cause leads to an automatic restart: a run whose first failure is transient, with nobody stopping
+	// the pipeline, must not simply end stopped (no Recovering / Degraded status, no restart)
+	if transientSeq >= 0 && fatalInjected == "" && userStopSeq < 0 && shutdownSeq < 0 && forceless(a.evs) && len(p.Ctl) == 0 && !x.StepCapHit && x.W.SlowestAnswer() < 5*time.Second {
+		handled := false
+		for _, s := range sts {
+			if s.seq > transientSeq && (s.status == "Recovering" || s.status == "Degraded") {
+				handled = true
+			}
+		}
+		for _, o := range opens {
+			if o.Seq > transientSeq {
+				handled = true
+			}
+		}
+		if !handled && (final == "UserStopped" || final == "SystemStopped") {
+			a.bad("C10/transient-failure-not-recovered/"+p.Engine, "a transient failure (event #%d) ended the run, nobody stopped the pipeline, but it ended %s without any recovery attempt or degraded status (status history %v)", transientSeq, final, statusNames(sts2names(sts)))
+		}
 	}
 	// user stop / shutdown end in the matching stopped status
 	if userStopOK && userStopSeq >= 0 && a.healthy && final != "UserStopped" && final != "" {
